@@ -38,9 +38,11 @@ theorem c13_every_call_returns_threads (reent : Bool) (hk : reentOf lockKind = s
     (Final c ∨ ∃ c', Step reent c c') ∧ measure threads = measure c + n :=
   threads_return c13_shapes_disciplined_table.2 hk threads h hs
 
-/-- Sequentially, for any configuration and history: every call yields a result (never `hang`, never the
-    abandoned-object marker) — including the ingest that reaches the auto-digest threshold or capacity.  The
-    model's lock flag is the extracted lock kind. -/
+/-- Sequentially, for any configuration and history (including items whose `created_at` is far in the past or the
+    future, or timezone-aware): every call gives control back to its caller — with a result, or (only `autophagy`
+    meeting a timezone-aware `created_at`) with an exception after which the lock is free and nothing has changed —
+    never `hang`, never the abandoned-object marker; including the ingest that reaches the auto-digest threshold or
+    capacity.  The model's lock flag is the extracted lock kind. -/
 theorem c13_every_call_returns (cfg : Cfg) (hre : cfg.reent = (reentOf lockKind == some true)) (ops : List Op) :
     (∀ o ∈ runObs cfg init ops, o.returned = true) ∧ (run cfg init ops).dead = false := by
   have : (reentOf lockKind == some true) = true := by decide
@@ -100,7 +102,7 @@ theorem c13_pinned_shape_stuck_witness :
     `cfg 2 2 … / ingest / ingest` hangs. -/
 theorem c13_pinned_ingest_hangs_witness :
     (runObs ⟨2, 2, 3515625, false, fun _ => .ret [], none, none⟩ init
-      [.ingest 1 .expired 2, .ingest 2 .expired 2]).map Obs.returned = [true, false] := by decide
+      [.ingest 1 .expired 2 .now, .ingest 2 .expired 2 .now]).map Obs.returned = [true, false] := by decide
 
 /-! ### bounded queue -/
 
@@ -114,7 +116,7 @@ theorem c13_queue_bounded (cfg : Cfg) (h2 : 2 ≤ cfg.maxQ) (ops : List Op) :
     `1 // 2 = 0` items and the queue grows past the bound. -/
 theorem c13_queue_bound_needs_two_witness :
     (run ⟨1, 1000, 0, true, fun _ => .ret [], none, none⟩ init
-      [.ingest 1 .expired 0, .ingest 2 .expired 0]).queue.length = 2 := by decide
+      [.ingest 1 .expired 0 .now, .ingest 2 .expired 0 .now]).queue.length = 2 := by decide
 
 /-! ### every item has exactly one fate -/
 
@@ -280,9 +282,9 @@ private def cfgEx : Cfg :=
   ⟨2, 3, 10, true, fun it => if it.content = 0 then .raise else .ret [100 + it.id], none, some fun it => it.content != 0⟩
 
 private def histEx : List Op :=
-  [.ingest 1 .expired 0, .ingest 2 .toxic 1, .ingest 3 .expired 1,    -- capacity: emergency digest drops item 1
-   .digest (some 1), .ingest 4 .toxic 0, .advance 10, .autophagy,     -- toxic item 2 digested; items 3, 4 expire
-   .ingest 5 .expired 0, .ingest 6 .misfolded 1, .digest none]        -- item 5 errors, item 6 digested
+  [.ingest 1 .expired 0 .now, .ingest 2 .toxic 1 .now, .ingest 3 .expired 1 .now,    -- capacity: emergency digest drops item 1
+   .digest (some 1), .ingest 4 .toxic 0 .now, .advance 10, .autophagy,     -- toxic item 2 digested; items 3, 4 expire
+   .ingest 5 .expired 0 .now, .ingest 6 .misfolded 1 .now, .digest none]        -- item 5 errors, item 6 digested
 
 /-- all five fates occur, the toxic callback ran once for the processed toxic item and not for the expired one, the
     bin holds a key — the hypotheses of the theorems above (`2 ≤ maxQ`, built-in toxic digester, callback set,
@@ -296,7 +298,7 @@ example :
 /-- the auto-digest path with a failing item: the error is logged, the item is accounted for -/
 example :
     let s := run ⟨8, 2, 10, true, fun it => if it.content = 0 then .raise else .ret [], none, none⟩ init
-      [.ingest 1 .expired 0, .ingest 2 .expired 1]
+      [.ingest 1 .expired 0 .now, .ingest 2 .expired 1 .now]
     s.autoLogged = 1 ∧ s.gErrored.map (·.id) = [1] ∧ s.queue.map (·.id) = [2] := by decide
 
 /-- a thread program meeting the hypothesis of `c13_every_call_returns_threads`: one `ingest` call along the path
@@ -318,8 +320,8 @@ example : reentOf lockKind = some true := by decide
 /-- two digest calls in flight at once (threads 1 and 2 popped one item each, thread 2's iteration runs first, an
     ingest with emergency digest happens in between): not quiescent in the middle, quiescent and balanced at the end -/
 example :
-    let mid := runActs cfgEx init [.op (.ingest 1 .expired 1), .op (.ingest 2 .toxic 1), .pop 1 (some 1), .pop 2 (some 1)]
-    let fin := runActs cfgEx mid [.iter 2, .op (.ingest 3 .expired 0), .iter 1]
+    let mid := runActs cfgEx init [.op (.ingest 1 .expired 1 .now), .op (.ingest 2 .toxic 1 .now), .pop 1 (some 1), .pop 2 (some 1)]
+    let fin := runActs cfgEx mid [.iter 2, .op (.ingest 3 .expired 0 .now), .iter 1]
     mid.gPending.map (fun p => (p.1, p.2.id)) = [(1, 1), (2, 2)] ∧ mid.queue = [] ∧
     fin.gPending = [] ∧ fin.gDigested.map (·.id) = [2, 1] ∧ fin.toxicLog.map (·.id) = [2] ∧
     fin.queue.map (·.id) = [3] := by decide
